@@ -66,6 +66,7 @@ def run_config(chk, tier, cfgname):
             own += 1
             c16.check_impl(chk, prog, im, cfgname)
     chk.floor("collector-own-collect-impls", own, 3)
+    allocation_state(chk, prog, cfgname)
     # the event "value traced" of the mark_one table is GcPtr::trace_value: it must forward to the vtable's
     # trace slot, whose closure calls Collect::trace of the allocated type, on every path
     from gcv import rules_prims
@@ -85,3 +86,47 @@ def run(chk, tier):
             del chk.explanation[n_expl:]
             del chk.not_decided[nd:]
     chk.cfg = None
+
+
+def allocation_state(chk, prog, c):
+    """The typestate automaton starts every object as (White, live, needs-trace = that of its type). The last
+    component is established by the allocation path: every function that obtains a block from GcPtr::alloc must,
+    on every path to its return, store into the header's needs-trace flag the constant
+    `<T as Collect>::NEEDS_TRACE` of the very type it allocates (or `true`, which is merely conservative). A block
+    flagged `false` for a pointer-holding type is blackened without ever being traced: its children are lost."""
+    from gcv import cfg as _cfg
+    prog.edges()
+    allocs = list(prog.callers_of("gc_ptr::GcPtr::alloc"))
+    chk.floor("GcPtr::alloc-callers", len(allocs), 1)
+    for e in allocs:
+        body = prog.body_of(e.caller_raw)
+        a_ty = None
+        for a in e.term["f"].get("args", []):
+            if "ty" in a:
+                a_ty = a["ty"]
+                break
+        sets = [x for x in prog.calls_from(e.caller) if x.callee == "gc_ptr::GcHeader::set_needs_trace"]
+        dom = _cfg.dominators(body, unwind=False)
+        rets = [r for r in _cfg.return_blocks(body) if not body["blocks"][r].get("c")]
+        probs = []
+        good = []
+        for x in sets:
+            arg = x.term["args"][1]
+            if arg.get("k") == "const" and "uneval" in arg and arg["uneval"]["def"] == "collect::Collect::NEEDS_TRACE":
+                t = [a["ty"] for a in arg["uneval"]["args"] if "ty" in a][:1]
+                if t and a_ty is not None and t[0] != a_ty:
+                    probs.append("needs-trace flag taken from `%s`, but the block is allocated for `%s`" % (
+                        arg["uneval"]["s"], prog.ty(a_ty)["s"]))
+                else:
+                    good.append(x.bb)
+            elif arg.get("k") == "const" and arg.get("v", {}).get("int") == 1:
+                good.append(x.bb)
+            else:
+                probs.append("needs-trace flag set from %s, not from the allocated type's NEEDS_TRACE constant" % (
+                    arg.get("uneval", {}).get("s") or ("the constant false" if arg.get("k") == "const" else "a computed value")))
+        if not probs and not (good and all(any(g in dom[r] for g in good) for r in rets)):
+            probs.append("a path returns the freshly allocated block without setting its needs-trace flag (it stays false)")
+        chk.inst("allocation-sets-needs-trace", "%s[%s]" % (e.caller, c), not probs,
+                 detail="; ".join(probs) + ": an object of a pointer-holding type flagged needs-trace = false is blackened "
+                        "without being traced" if probs else "", loc="%s:%s" % (e.file, e.line),
+                 sample={"allocator": e.caller, "flag_sites": len(sets)})
